@@ -777,31 +777,32 @@ func genChurn(prop string, seed uint64, run int, tier string, big bool) *Scenari
 }
 
 // ---------------------------------------------------------------------------
-// C04, thorough tier: every sequence of length <= 4 over a 15-symbol alphabet
+// C04, thorough tier: every sequence of length <= 5 over a 15-symbol alphabet
 // (Add/Remove of six core paths, WatchList, delete / recreate / re-point),
 // lag-free. Index i selects the sequence (mixed radix); nil when exhausted.
 
 var enumPaths = []string{"u/f", "u/d", "u/lf", "u/ld", "u/h", "u/missing"}
 
 const enumSymbols = 15
+const enumMaxLen = 5
 
 func enumTotal() int {
 	n, p := 0, 1
-	for l := 1; l <= 4; l++ {
+	for l := 1; l <= enumMaxLen; l++ {
 		p *= enumSymbols
 		n += p
 	}
 	return n
 }
 
-func genAPIEnum(prop string, seed uint64, run int) *Scenario {
-	i := run
+func genAPIEnum(prop string, seed uint64, run, idx int) *Scenario {
+	i := idx
 	l, p := 1, enumSymbols
 	for i >= p {
 		i -= p
 		l++
 		p *= enumSymbols
-		if l > 4 {
+		if l > enumMaxLen {
 			return nil
 		}
 	}
